@@ -197,7 +197,7 @@ theorem exec_ok : X.exec 10 K.xc stmt σ = .ok .normal σ' := by rfl
     represents the state in which `g = 6`. -/
 theorem run : ∃ a' b' mem', Steps K.env (cfg 0 0 0 mem) σ.io (cfg 4 a' b' mem') σ'.io ∧ Rep K σ' mem' := by
   have h := (stmt_correct K 4 wf 10).1 stmt σ stmt_ok {} code {} 0 0 0 mem gen_ok code_at rep
-    (Nat.zero_le _) (Nat.le_refl _) (fun e he => by simp at he)
+    (Nat.zero_le _) (Nat.le_refl _) (fun e he => by simp [GS.items] at he)
   rw [exec_ok] at h
   exact h
 
